@@ -460,6 +460,15 @@ def gen_model(r, *, budget=6000, max_T=4, force=None):
             funcs.append(_fn(f"use_{v}_constraint", [v], ["le", N(min(grid_points(G[v]))), V(v)]))
     r.shuffle(funcs)
     mj = {"n_periods": T, "states": states, "choices": choices, "functions": funcs}
+    if "kwonly" in force:
+        # parameters declared keyword-only (`def f(x, *, kappa)`; what `functools.partial(f, kappa=...)` looks like as well)
+        from dsl import param_slots
+
+        slots = param_slots(mj)
+        for f in funcs:
+            if slots.get(f["name"]) and not f.get("stochastic") and not f.get("same_as") and r.random() < 0.8:
+                f["kwonly"] = list(slots[f["name"]])
+                meta["kwonly"] = meta.get("kwonly", 0) + 1
     meta.update(
         n_cs=n_cs, n_ds=n_ds, n_cc=n_cc, n_dc=n_dc, T=T, n_stoch=len(stoch), n_aux=len(aux),
         n_constraints=sum(1 for f in funcs if f["name"].endswith("_constraint")),
